@@ -62,7 +62,7 @@ func TestCheck(t *testing.T) {
 			r.Inconclusive("component world: in %d duties a Propose / Participate call did not return after its context had ended (not a verdict by itself; what the monitors observed up to then was judged)", k)
 		}
 		// Byzantine member on the wire (consworld/adversary.go): forged decisions for a value nobody proposed.
-		advWorlds, advDuties := 5, 5
+		advWorlds, advDuties := 5, 6
 		if r.Thorough() {
 			advWorlds, advDuties = 40, 10
 		}
@@ -74,10 +74,13 @@ func TestCheck(t *testing.T) {
 				continue
 			}
 			for d := 0; d < advDuties; d++ {
-				play := consworld.AdvPlays[(k*advDuties+d)%len(consworld.AdvPlays)]
+				play := consworld.AdvPlays[(k*advDuties+d)%5]
+				if d == advDuties-1 || d == advDuties/2 {
+					play = consworld.AdvPlays[5] // replay of an earlier duty's genuine COMMITs (falls back while there is no earlier duty of the type)
+				}
 				res := aw.RunAdvDuty(b, rngA, play, fmt.Sprintf("adv%d-d%d", k, d))
 				r.Count("adversary_duties", 1)
-				r.Count("adversary_duties/"+play, 1)
+				r.Count("adversary_duties/"+res.Play, 1)
 				if res.OthersGotA {
 					r.Count("adversary_duties_in_which_the_other_members_decided_with_the_adversarys_genuine_votes", 1)
 				}
